@@ -111,6 +111,24 @@ def main():
                 direct.append({"law": "dataset.session is the session the dataset was opened with", "got": repr(own)})
         finally:
             requests.Session.__init__ = spy_init
+        # (2c) a session given together with other options (use_cache, session_kwargs, timeout) is still THE session
+        for opts in ({"use_cache": True, "cache_kwargs": {"backend": "memory"}}, {"session_kwargs": {"token": "t"}}, {"timeout": 5}):
+            sess3, ad3 = TR.plain_session(app)
+            created.clear()
+            try:
+                ds3 = open_url(TR.BASE + "/d", session=sess3, protocol="dap2", **opts)
+                ad3.seen.clear()
+                np.asarray(ds3["x"].data[0:1, 0:2])
+                list(ds3["q"].iterdata())
+                r.count(("session+options", repr(sorted(opts))))
+                extra = [x for x in created if x is not sess3]
+                if not ad3.seen or extra or ds3.session is not sess3:
+                    direct.append({"law": "every request of a dataset goes through the session it was opened with",
+                                   "open_url_options": repr(opts), "requests_seen_by_the_given_session": len(ad3.seen),
+                                   "other_sessions_created": len(extra), "dataset.session_is_the_given_one": ds3.session is sess3})
+            except Exception as e:  # noqa
+                direct.append({"law": "every request of a dataset goes through the session it was opened with",
+                               "open_url_options": repr(opts), "error": repr(e)[:300]})
         root = D.Node("d4")
         arr = np.arange(6, dtype="i4").reshape(2, 3)
         root.members.append(D.Var("x", "Int32", [("anon", 2), ("anon", 3)], arr))
